@@ -41,6 +41,7 @@ class Check:
         self.samples = []
         self.violations = []  # (key, what, replay path)
         self.known_hits = {}  # key -> count
+        self.known_samples = []
         self.inconclusive = []
         self.extra = {}
         self.assumptions = []
@@ -79,6 +80,13 @@ class Check:
         k = self.is_known(key)
         if k is not None:
             self.known_hits[key] = self.known_hits.get(key, 0) + 1
+            if self.known_hits[key] <= 2:
+                self.known_samples.append({"key": key, "what": what[:600]})
+                dbg = os.environ.get("VERIF_KNOWN_DIR")
+                if dbg and replay_obj is not None:
+                    os.makedirs(dbg, exist_ok=True)
+                    with open(os.path.join(dbg, "%s-known-%d.json" % (self.pid, len(self.known_samples))), "w") as fh:
+                        json.dump({"key": key, "what": what, "replay": replay_obj}, fh, indent=1, default=str)
             return False
         if any(v[0] == key for v in self.violations) and len([v for v in self.violations if v[0] == key]) >= 3:
             self.violations.append((key, what, None))
@@ -108,6 +116,7 @@ class Check:
             "inconclusive": len(self.inconclusive),
             "inconclusive_cases": self.inconclusive[:10],
             "known_findings_matched": self.known_hits,
+            "known_finding_samples": self.known_samples,
             "violation_keys": sorted(set(v[0] for v in self.violations)),
         }
         cov.update(self.extra)
